@@ -300,11 +300,11 @@ func (f *Font) encodeCharstrings() map[string]string {
 	return charStrings
 }
 
-func writeEncoding(encoding []string) string {
+func writeEncoding(encoding []string, glyphs map[string]string) string {
 	if len(encoding) != 256 {
 		return ""
 	}
-	if isStandardEncoding(encoding) {
+	if isStandardEncoding(encoding, glyphs) {
 		return "/Encoding StandardEncoding def\n"
 	}
 
@@ -321,14 +321,21 @@ func writeEncoding(encoding []string) string {
 	return b.String()
 }
 
-func isStandardEncoding(encoding []string) bool {
+func isStandardEncoding(encoding []string, glyphs map[string]string) bool {
 	if len(encoding) != 256 {
 		return false
 	}
 	for i, s := range encoding {
-		if s != psenc.StandardEncoding[i] && s != ".notdef" {
-			return false
+		std := psenc.StandardEncoding[i]
+		if s == std {
+			continue
 		}
+		// A code may only be left unassigned if the reader will not assign
+		// it either, i.e. if the font lacks the standard glyph for the code.
+		if _, present := glyphs[std]; s == ".notdef" && !present {
+			continue
+		}
+		return false
 	}
 	return true
 }
@@ -363,7 +370,7 @@ var tmpl = template.Must(template.New("type1").Funcs(template.FuncMap{
 /UnderlineThickness {{.UnderlineThickness}} def
 end def
 /FontName {{.FontName|PN}} def
-{{ .Encoding|E -}}
+{{ E .Encoding .CharStrings -}}
 /PaintType 0 def
 /FontType 1 def
 /FontMatrix {{ .FontMatrix }} def
